@@ -271,7 +271,7 @@ func checkWasmCallClassification(p *core.Prog, r *core.Report, rule string) {
 			if p.IsTestFunc(caller) {
 				continue
 			}
-			calls := core.FindInstrs(caller, core.IsCallTo(p.FuncObj(pkgExec, "BaseExecutor.wasmCall")))
+			calls := core.FindInstrsIn(caller, core.IsCallTo(p.FuncObj(pkgExec, "BaseExecutor.wasmCall")))
 			for _, cs := range calls {
 				nRun++
 				stored := false
@@ -347,7 +347,7 @@ func checkStreamEndClassification(p *core.Prog, r *core.Report, rule string) {
 	nFn, nCalls := 0, 0
 	pipeNamed := p.Named(pkgPipe, "Pipeline")
 	for _, fn := range p.RepoFunctions() {
-		if len(core.FindInstrs(fn, core.IsCallTo(ost))) == 0 || fn.Pkg == nil || !strings.HasSuffix(fn.Pkg.Pkg.Path(), "/"+pkgSvc) {
+		if len(core.FindInstrsIn(fn, core.IsCallTo(ost))) == 0 || fn.Pkg == nil || !strings.HasSuffix(fn.Pkg.Pkg.Path(), "/"+pkgSvc) {
 			continue
 		}
 		nFn++
